@@ -34,6 +34,7 @@
 -/
 import Influx.Lemmas.EngineInv
 import Influx.Lemmas.EngineTrace2
+import Influx.Model.EngineBatch
 import Influx.Model.LockOrder
 import Influx.Model.LockOrderExtracted
 
@@ -275,6 +276,123 @@ theorem C39_holdsOn_partial (ops : List Op) (hops : ∀ op ∈ ops, op.twoPhase 
 
 example : ∀ op ∈ [Op.write 0 1 7, .snapBegin, .read 0, .write 0 1 8, .snapReplace, .compactBegin, .read 0,
     .snapClear, .compactCommit, .delBegin 0 1 1, .write 0 1 5, .read 0, .delEnd, .read 0], op.twoPhase = false := by
+  decide
+
+/-! ### why `wr` and `snapBegin` may be treated as atomic: exclusive vs shared Engine.mu -/
+
+theorem run_append (s : St) (a b : List Step) : run s (a ++ b) = run (run s a) b := by
+  induction a generalizing s with
+  | nil => rfl
+  | cons σ a ih => simp [run, ih]
+
+/-- every batch in flight captured the CURRENT hot store -/
+def WInv (s : FSt) : Prop := ∀ w ∈ s.writers, w.2 = s.gen
+
+theorem find_writer_mem {ws : List (Nat × Nat)} {i : Nat} {w : Nat × Nat}
+    (h : ws.find? (fun w => w.1 == i) = some w) : w ∈ ws := List.mem_of_find?_eq_some h
+
+theorem fstep_exclusive (s s' : FSt) (hinv : WInv s) (σ : FStep) (hx : σ ≠ .snapBegin false)
+    (hs : fstep s σ = some s') : WInv s' ∧ s'.st = run s.st (coarsen σ) := by
+  cases σ with
+  | wBegin i =>
+    simp only [fstep] at hs
+    split at hs
+    · simp at hs
+    · simp at hs; subst hs
+      refine ⟨?_, rfl⟩
+      intro w hw
+      rcases List.mem_cons.mp hw with rfl | hw
+      · rfl
+      · exact hinv w hw
+  | wKey i k t v =>
+    simp only [fstep] at hs
+    cases hf : s.writers.find? (fun w => w.1 == i) with
+    | none => simp [hf] at hs
+    | some w =>
+      obtain ⟨wi, g⟩ := w
+      have hg : g = s.gen := hinv (wi, g) (find_writer_mem hf)
+      simp only [hf, hg, if_true] at hs
+      simp at hs; subst hs
+      exact ⟨hinv, rfl⟩
+  | wEnd i =>
+    simp only [fstep] at hs
+    split at hs
+    · simp at hs; subst hs
+      exact ⟨fun w hw => hinv w (List.mem_filter.mp hw).1, rfl⟩
+    · simp at hs
+  | snapBegin e =>
+    cases e with
+    | false => exact absurd rfl hx
+    | true =>
+      simp only [fstep, Bool.true_and] at hs
+      split at hs
+      · simp at hs
+      · next hne =>
+        have hw : s.writers = [] := by simpa using hne
+        split at hs
+        · simp at hs; subst hs
+          exact ⟨by intro w hw'; simp [hw] at hw', rfl⟩
+        · next hph =>
+          simp at hs; subst hs
+          refine ⟨hinv, ?_⟩
+          simp only [coarsen, run, step]
+          cases hp : s.st.phase with
+          | idle => simp [hp] at hph
+          | begun => rfl
+          | replaced => rfl
+  | other τ =>
+    cases τ with
+    | wr k t v => simp [fstep] at hs
+    | snapBegin => simp [fstep] at hs
+    | snapReplace => simp [fstep] at hs; subst hs; exact ⟨hinv, rfl⟩
+    | snapClear => simp [fstep] at hs; subst hs; exact ⟨hinv, rfl⟩
+    | compact n => simp [fstep] at hs; subst hs; exact ⟨hinv, rfl⟩
+    | delFile i k lo hi => simp [fstep] at hs; subst hs; exact ⟨hinv, rfl⟩
+    | delCache k lo hi => simp [fstep] at hs; subst hs; exact ⟨hinv, rfl⟩
+
+/-- **C39 (batch atomicity from the lock modes)**: in the finer model where a write
+    batch captures the hot store once and then writes its keys one by one while
+    holding Engine.mu SHARED, if every Cache.Snapshot runs under Engine.mu EXCLUSIVE
+    (`snapshot=W write=R`, re-extracted from the source on every run), then every
+    execution the lock admits is an execution of the coarse step model with each
+    key write as an atomic `wr` step: no batch ever writes into a store that has
+    become the snapshot.  All theorems about `run` (reads, maintenance) therefore
+    apply to batches. -/
+theorem C39_batch_atomicity (σs : List FStep) (s s' : FSt) (hinv : WInv s)
+    (hex : allExclusive σs = true) (hr : frun s σs = some s') :
+    s'.st = run s.st (σs.flatMap coarsen) ∧ WInv s' := by
+  induction σs generalizing s with
+  | nil => simp [frun] at hr; subst hr; exact ⟨rfl, hinv⟩
+  | cons σ rest ih =>
+    simp only [frun] at hr
+    cases hs : fstep s σ with
+    | none => simp [hs] at hr
+    | some s1 =>
+      simp only [hs] at hr
+      have hx : σ ≠ .snapBegin false := by
+        intro hc; subst hc; simp [allExclusive] at hex
+      have hrest : allExclusive rest = true := by
+        cases σ with
+        | snapBegin e => simp [allExclusive] at hex; exact hex.2
+        | wBegin i => simpa [allExclusive] using hex
+        | wKey i k t v => simpa [allExclusive] using hex
+        | wEnd i => simpa [allExclusive] using hex
+        | other τ => simpa [allExclusive] using hex
+      obtain ⟨hinv1, hst1⟩ := fstep_exclusive s s1 hinv σ hx hs
+      obtain ⟨h1, h2⟩ := ih s1 hinv1 hrest hr
+      refine ⟨?_, h2⟩
+      rw [List.flatMap_cons, run_append, ← hst1]; exact h1
+
+/-- **With a SHARED lock around Cache.Snapshot an acknowledged write is lost**: batch 1
+    writes (0,1), a snapshot begins and its file is written while the batch is still
+    in flight, the batch then writes (0,2) into the store that has become the
+    snapshot, ends (acknowledged), ClearSnapshot drops that store: (0,2) is not
+    readable, and no coarse execution of the two writes explains that. -/
+theorem C39_shared_snapshot_loses_write :
+    (frun FSt.init [.wBegin 1, .wKey 1 0 1 7, .snapBegin false, .other .snapReplace,
+        .wKey 1 0 2 8, .wEnd 1, .other .snapClear]).map (fun s => (s.st.abs 0 1, s.st.abs 0 2, s.writers))
+      = some (some 7, none, []) ∧
+    frun FSt.init [.wBegin 1, .wKey 1 0 1 7, .snapBegin true] = none := by
   decide
 
 /-! ## lock order -/
